@@ -4,7 +4,7 @@ CONSTANTS
   TagIdx = {1,2,3,4,5,6,7,8,9,10,11,12}
   Merchants = {"m1", "m2"}
   Cats = {"c1", "c2"}
-  Months = {"2024-12", "2025-01"}
+  Months = {"2024-01", "2025-01"}
   Sources = {"s1"}
   MaxLen = 2
 INVARIANT ExactlyOneBucket
